@@ -112,10 +112,7 @@ var genericScopes = map[string]genericScope{
 }
 
 func genericFor(id string, p *Prog, r *Report) {
-	sc, ok := genericScopes[id]
-	if !ok {
-		return
-	}
+	sc := genericScopes[id]
 	if sc.idRule != "" {
 		var callers map[string]bool
 		if id != "C14" {
@@ -125,6 +122,16 @@ func genericFor(id string, p *Prog, r *Report) {
 	}
 	if sc.staleRule != "" {
 		genericStale(p, r, sc.staleRule, sc.mods, sc.stFloor)
+	}
+	switch id {
+	case "C01":
+		recordLinkRule(p, r, "R01.9", modset("vault"), 15)
+	case "C03":
+		recordLinkRule(p, r, "R03.8", modset("vault"), 15)
+	case "C13":
+		recordLinkRule(p, r, "R13.7", modset("locker"), 4)
+	case "C14":
+		recordLinkRule(p, r, "R14.8", modset("vault", "locker", "lend"), 20)
 	}
 	if id == "C13" {
 		sideAgreementRule(p, r, "R13.6", modset("auction", "auctionsV2", "liquidation", "liquidationsV2", "collector", "esm", "vault", "lend"), 10)
